@@ -145,7 +145,7 @@ def run(chk, replay=None):
             if canon is not None and m != "OK 0 " + canon:
                 src_model.append((c, canon, kind, m))
     # the Coq printer against the Python printer
-    tie = printer_tie(chk, rng) if replay is None or "tie" in (replay or {}) else None
+    tie = printer_tie(chk, rng, hb) if replay is None else None
     for c, canon, kind, grp in cases:
         chk.count(c, canon is None or canon != "(file -)")
     for i in (0, len(cases) // 3, len(cases) // 2, len(cases) - 1):
@@ -205,27 +205,45 @@ def run(chk, replay=None):
     return chk.finish()
 
 
-def printer_tie(chk, rng):
-    """Coq printer vs Python printer on the same (type, layout): see ig.cst_type / runner entry print-type."""
+def printer_tie(chk, rng, hb=None):
+    """Coq printer vs Python printer on the same (type, layout).  pv/idlgen.py gen_cst_type builds a concrete syntax
+    tree in the shape of Print.v, prints it by string concatenation and computes the canonical tree of the type; the
+    runner entry `print-type` rebuilds the Coq value and answers with pr_type c [], wf_type c, simple_type c and the
+    canonical rendering of erase_type c.  The same text (followed by " x") also goes through the real parser and the
+    model parser, which must both return the erased tree."""
     if not hasattr(ig, "gen_cst_type") or not os.path.exists(FAM.runner):
         chk.cov["printer_tie"] = "not available"
         return None
     n = 1500 if chk.tier == "quick" else 30000
-    lines, texts = [], []
+    lines, exp = [], []
     for i in range(n):
-        cst, text = ig.gen_cst_type(rng, rng.choice([0, 1, 2, 3]))
-        lines.append("print-type " + ig.hx(cst))
-        texts.append(text)
+        ser, text, canon, _ = ig.gen_cst_type(rng, rng.choice([0, 1, 2, 3, 4]))
+        lines.append("print-type " + ig.hx(ser))
+        exp.append((text, canon))
     out = core.run_lines(FAM.runner, lines)
     res = dict(cases=n, mismatch=None)
-    bad = 0
-    for l, t, o in zip(lines, texts, out):
-        want = "TEXT " + ig.hx(t)
-        if o != want:
+    bad, simple = 0, 0
+    for l, (t, c), o in zip(lines, exp, out):
+        ok = False
+        for flag in ("true", "false"):
+            if o == "TEXT %s WF true SIMPLE %s ERASE %s" % (ig.hx(t), flag, c):
+                ok = True
+                simple += flag == "true"
+        if not ok:
             bad += 1
             if res["mismatch"] is None:
-                res["mismatch"] = dict(case=l[:2000], python_text=t[:1000], coq_output=o[:2000])
-    chk.cov["printer_tie"] = dict(cases=n, mismatches=bad,
-                                  what="Print.v pr_type (extracted) vs pv/idlgen.py text on the same concrete syntax tree, "
-                                       "plus wf_type = true and model parse of the Coq text = erase")
+                res["mismatch"] = dict(case=l[:2000], python_text=t[:1000], python_tree=c[:1000], coq_output=o[:2000])
+    plines = ["type " + ig.hx(t + " x") for t, _ in exp]
+    pm = core.run_lines(FAM.runner, plines)
+    pi = core.run_lines(hb, plines) if hb else pm
+    pbad = 0
+    for (t, c), a, b in zip(exp, pm, pi):
+        if a != "OK 2 " + c or b != "OK 2 " + c:
+            pbad += 1
+            if res["mismatch"] is None:
+                res["mismatch"] = dict(text=t[:1000], tree=c[:1000], model_parse=a[:1000], impl_parse=b[:1000])
+    chk.cov["printer_tie"] = dict(cases=n, mismatches=bad, parse_mismatches=pbad, simple_types=simple,
+                                  what="Print.v pr_type / wf_type / erase_type (extracted) vs pv/idlgen.py text and tree on the same "
+                                       "concrete syntax tree (types with blanks, comments, cpp_type, annotations); the text then parsed by "
+                                       "implementation and model; simple_types = cases inside the proved sub-grammar")
     return res
